@@ -130,10 +130,23 @@ class State:
         return self.branch(fresh_bool(label))
 
     # -- effects
-    def emit(self, kind: str, **data) -> Effect:
-        e = Effect(kind, data)
+    def emit(self, _kind: str, **data) -> Effect:
+        e = Effect(_kind, data)
         self.effects.append(e)
         return e
+
+    def effects_of(self, *kinds):
+        out = []
+
+        def walk(effs):
+            for e in effs:
+                if e.kind == "foreach":
+                    walk(e.data["body"])
+                elif e.kind in kinds:
+                    out.append(e)
+
+        walk(self.effects)
+        return out
 
     def __deepcopy__(self, memo):
         n = State.__new__(State)
